@@ -257,6 +257,7 @@ func ruleE5(p *Program, c *Check, min int) {
 	ruleGlobals(p, c)
 	ruleTypes(p, c)
 	ruleConsts(p, c, verifRoot, anchored)
+	ruleTypeDefs(p, c, verifRoot, usedTypes)
 }
 
 func itoa(i int) string { return strconv.Itoa(i) }
@@ -316,7 +317,8 @@ func staticRefs(f *ssa.Function) []*ssa.Function {
 // receives/returns.
 func structTypesUsed(f *ssa.Function) map[string]bool {
 	out := map[string]bool{}
-	add := func(t types.Type) {
+	var add func(t types.Type)
+	add = func(t types.Type) {
 		for i := 0; i < 3; i++ {
 			switch x := t.(type) {
 			case *types.Pointer:
@@ -333,6 +335,11 @@ func structTypesUsed(f *ssa.Function) map[string]bool {
 			return
 		}
 		if _, isStruct := n.Underlying().(*types.Struct); !isStruct {
+			// other named types (Weight, Weights, Criteria, CriterionType, ...): their definition is pinned by E5-typedefs
+			out["typedef:"+n.Obj().Pkg().Name()+"."+n.Obj().Name()] = true
+			if m, isMap := n.Underlying().(*types.Map); isMap {
+				add(m.Elem())
+			}
 			return
 		}
 		out["type:"+n.Obj().Pkg().Name()+"."+n.Obj().Name()] = true
@@ -357,6 +364,16 @@ func structTypesUsed(f *ssa.Function) map[string]bool {
 					add(x.Type())
 				case *ssa.MakeInterface:
 					add(x.X.Type())
+				case *ssa.BinOp:
+					add(x.X.Type())
+				case *ssa.MakeMap:
+					add(x.Type())
+				case *ssa.MakeSlice:
+					add(x.Type())
+				case *ssa.Lookup:
+					add(x.X.Type())
+				case *ssa.MapUpdate:
+					add(x.Map.Type())
 				}
 			}
 		}
